@@ -158,7 +158,10 @@ func wireOf(items []Item) []byte {
 }
 
 // ---------------------------------------------------------------------------------------------
-// reference (trusted base): RFC 854 receiver over the wire bytes, no subnegotiation
+// reference (trusted base): the receiver the property describes, over the wire bytes. IAC followed by
+// any byte that is neither a verb nor IAC - the command codes 240..250, SE and SB included - is a
+// two-byte command; what follows it is data ("data that follows other telnet commands is delivered").
+// No RFC 855 subnegotiation semantics: the property makes no exception for IAC SB ... IAC SE.
 
 type dtok struct {
 	b   byte
@@ -299,7 +302,7 @@ func genItem(r *rand.Rand, w [4]int) Item {
 	case x < w[0]:
 		return Item{K: "neg", V: verbs[r.Intn(4)], O: genOpt(r)}
 	case x < w[0]+w[1]:
-		return Item{K: "cmd", C: 241 + r.Intn(9)}
+		return Item{K: "cmd", C: 240 + r.Intn(11)}
 	case x < w[0]+w[1]+w[2]:
 		return Item{K: "esc"}
 	}
@@ -320,6 +323,20 @@ func GenDesc(r *rand.Rand) Desc {
 	for i := 0; i < n; i++ {
 		d.Items = append(d.Items, genItem(r, w))
 	}
+	// now and then something shaped like a subnegotiation: IAC SB <option> <parameters> [IAC SE]. To the
+	// property these are two two-byte commands with data in between, all of which is delivered.
+	if r.Intn(6) == 0 {
+		pay := []byte{byte([]int{24, 31, 32, 39, 3, 1}[r.Intn(6)])}
+		for i, n := 0, r.Intn(5); i < n; i++ {
+			pay = append(pay, byte(r.Intn(255)))
+		}
+		sub := []Item{{K: "cmd", C: bSB}, {K: "text", X: hex.EncodeToString(pay)}}
+		if r.Intn(3) != 0 {
+			sub = append(sub, Item{K: "cmd", C: 240})
+		}
+		k := r.Intn(len(d.Items) + 1)
+		d.Items = append(d.Items[:k], append(sub, d.Items[k:]...)...)
+	}
 	// the end of the opening: force the interesting last bytes now and then
 	switch r.Intn(8) {
 	case 0:
@@ -327,9 +344,9 @@ func GenDesc(r *rand.Rand) Desc {
 	case 1:
 		d.Items = append(d.Items, Item{K: "neg", V: verbs[r.Intn(4)], O: 255})
 	case 2:
-		d.Items = append(d.Items, Item{K: "cmd", C: 241 + r.Intn(9)})
+		d.Items = append(d.Items, Item{K: "cmd", C: 240 + r.Intn(11)})
 	case 3:
-		d.Items = append(d.Items, Item{K: "cmd", C: 241 + r.Intn(9)}, Item{K: "text", X: hex.EncodeToString(genText(r))})
+		d.Items = append(d.Items, Item{K: "cmd", C: 240 + r.Intn(11)}, Item{K: "text", X: hex.EncodeToString(genText(r))})
 	}
 	wire := wireOf(d.Items)
 	st := refParse(wire).state
@@ -1270,6 +1287,12 @@ func runOnce(d Desc) (res mon.Result, earlyPattern bool) {
 		case "cmd":
 			special++
 			obs["two_byte_commands"]++
+			if it.C == bSB || it.C == 240 {
+				obs["sb_or_se_commands"]++
+			}
+			if it.C == bSB && i+1 < len(d.Items) && d.Items[i+1].K == "text" {
+				obs["data_after_iac_sb"]++
+			}
 			tags = append(tags, fmt.Sprintf("cmd=%d", it.C))
 		case "esc":
 			special++
@@ -1489,7 +1512,7 @@ func init() {
 		ID:    "C15",
 		Level: "exploration",
 		Rule: "PRNG-generated telnet openings (0-35 items: IAC DO/DONT/WILL/WONT x option codes incl. 3, 255 and codes equal to command bytes; " +
-			"two-byte commands 241-249; escaped IAC IAC; text incl. bytes 240-254 as plain data) sent over real loopback TCP in PRNG segments " +
+			"two-byte commands 240-250 (SE and SB included, also as IAC SB <option> <parameters> [IAC SE]); escaped IAC IAC; text incl. bytes 240-254 as plain data) sent over real loopback TCP in PRNG segments " +
 			"(whole / per byte / geometric / exactly inside every IAC sequence / mixed; gaps 0-2 ms), socket timeout 600-1600 ms, read size 1-65535, " +
 			"optional plain tail sent after Open. Non-trivial = opening with >=1 two-byte command or escaped IAC and >=2 TCP segments. " +
 			"Paced family (24 quick / 300 thorough): timeout 800/1200 ms, 4-8 bursts (a request in each), first at once, pauses 25-45 % of TimeoutSocket/2, span 0.6-1.5 x timeout; " +
@@ -1502,12 +1525,12 @@ func init() {
 			"by idle-window expiry, server half-close (EOF) or reset, with and without reading what was buffered and with and without Close; every opening inside the quantifier is judged against a fresh reference; " +
 			"non-trivial = an earlier opening ended inside a sequence and a later opening was judged. Distinct = distinct descriptor hash.",
 		Assumptions: []string{
-			"no subnegotiation (IAC SB ... IAC SE) and no IAC followed by a byte below 241 other than in a negotiation (outside the quantifier)",
+			"IAC followed by any command code 240..250 is a two-byte command and what follows it is data, as the property's wording has it (and the unchanged parser does): no RFC 855 subnegotiation semantics are claimed, a client that consumed IAC SB ... IAC SE would be reported as losing data; IAC followed by a byte below 240 is not generated",
 			"every byte of the opening reaches the client inside its negotiation window: judged only if the kernel reported the whole opening sent and acknowledged (TCP_INFO of the server socket: unacked=0, notsent=0) before Open returned (shared event counter, no durations); " +
 				"an outcome equal to a correct client's whose window ended early is a violation only if every burst was acknowledged within 60 % of the read window applying to it (timeout/4 from the dial for the first; timeout/2 from the previous burst's last write for later ones), without retransmission, canary and PSI quiet, reproduced 3 of 3 - otherwise inconclusive",
 			"linux, little-endian (struct tcp_info offsets 24/100/144)",
 			"reactive: requests of a round the client's kernel had received are expected to be answered within TimeoutSocket/4 (half the idle window the library itself grants); a missing answer at that point is a violation only with canary and PSI quiet, no retransmission, and reproduced 3 of 3 - otherwise inconclusive",
-			"re-open: a new connection is a new telnet stream (fresh reference; bytes of an earlier connection delivered by a later opening's reads are a violation); openings ending in a subnegotiation are outside the per-opening oracle and only serve as predecessors; via the driver the channel's CR removal is applied to the expectation and ESC is kept out of the text",
+			"re-open: a new connection is a new telnet stream (fresh reference; bytes of an earlier connection delivered by a later opening's reads are a violation); openings ending in IAC SB ... are judged like any other (two-byte command + data); via the driver the channel's CR removal is applied to the expectation and ESC is kept out of the text",
 			"an escaped IAC IAC may be delivered as one or two 0xff bytes (consistently within a case)",
 			"bytes after Open (the tail) carry no 0xff; the server half-closes after the tail so that the reads end with io.EOF instead of a quiet period",
 			"reference: RFC 854 receiver state machine (refParse, ~45 lines) over the wire bytes",
